@@ -198,6 +198,55 @@ func runC18(c *Case) {
 			}
 		}
 	}
+	// the Encryptor object as kv uses it
+	{
+		pass := []byte(fmt.Sprintf("buffer-pass-%d", c.Index))
+		buf := append([]byte{}, pass...)
+		enc := kv.V1NodeEncryptor(buf)
+		// the caller wipes / reuses its buffer after construction
+		for i := range buf {
+			buf[i] = 'x'
+		}
+		ref := kv.V1NodeEncryptor(append([]byte{}, pass...))
+		m := r.Bytes(r.Range(40, 200))
+		c1, e1 := enc.Encrypt("p", m)
+		c2, e2 := ref.Encrypt("p", m)
+		c.Count("encryptor_objects_checked", 1)
+		if e1 != nil || e2 != nil || !bytes.Equal(c1, c2) {
+			c.Violate("C18:encryptor:key-follows-caller-buffer", "an encryptor built from a passphrase buffer that the caller changed afterwards encrypts differently from one built from the same passphrase", nil)
+			return
+		}
+		if pt, err := ref.Decrypt("p", c1); err != nil || !bytes.Equal(pt, m) {
+			c.Violate("C18:encryptor:round-trip", fmt.Sprintf("cross decrypt failed: %v", err), nil)
+			return
+		}
+		// one instance reading a store that holds both formats, in both orders
+		key := c18Key(string(pass))
+		for _, legacyFirst := range []bool{false, true} {
+			one := kv.V1NodeEncryptor(append([]byte{}, pass...))
+			cur := r.Bytes(r.Range(33, 120))
+			old := r.Bytes(r.Range(33, 120))
+			cbox, _ := one.Encrypt("p", cur)
+			nonce := r.Bytes(24)
+			sealed, _ := kv.VerifLegacySeal(old, nonce, key)
+			lbox := append(append([]byte{}, nonce...), sealed...)
+			check := func(box, want []byte, what string) bool {
+				pt, err := one.Decrypt("p", box)
+				if err != nil || !bytes.Equal(pt, want) {
+					c.Violate("C18:encryptor:mixed-formats:"+what, fmt.Sprintf("one encryptor instance, legacy box first=%v: the %s box does not open to its plaintext (err %v)", legacyFirst, what, err), nil)
+					return false
+				}
+				return true
+			}
+			if legacyFirst {
+				if !check(lbox, old, "legacy") || !check(cbox, cur, "current") || !check(lbox, old, "legacy") {
+					return
+				}
+			} else if !check(cbox, cur, "current") || !check(lbox, old, "legacy") || !check(cbox, cur, "current") {
+				return
+			}
+		}
+	}
 	c.NonTrivial(fmt.Sprint("A", from, to, canon.String()))
 	if c.Index < 3 {
 		c.Res.Sample = map[string]interface{}{"kind": "primitives", "lengths": fmt.Sprintf("%d..%d", from, to), "passphrases": npass}
